@@ -25,8 +25,9 @@ Step ==
     /\ l <= Len(T.ev)
     /\ LET e == Ev IN
        /\ Check("C08:trend_of_degree_le_order_leaves_estimate_unchanged", e.d > e.p \/ e.all <= 2)
-       /\ Check("C08:trend_of_degree_order_plus_one_changes_estimate", e.d # e.p + 1 \/ e.low >= 1000)
-       /\ Check("C08:order_minus_one_is_the_raw_windowed_segment", e.p # -1 \/ e.d # 0 \/ e.low >= 1000)
+       \* (sensitivity is asserted on scheduler plans, whose lowest bins use long segments; minL < 0 marks a user plan of short segments)
+       /\ Check("C08:trend_of_degree_order_plus_one_changes_estimate", e.d # e.p + 1 \/ e.minL < 0 \/ e.low >= 1000)
+       /\ Check("C08:order_minus_one_is_the_raw_windowed_segment", e.p # -1 \/ e.d # 0 \/ e.minL < 0 \/ e.low >= 1000)
     /\ l' = l + 1 /\ UNCHANGED tid
 Next == Step
 Spec == Init /\ [][Next]_vars
